@@ -141,6 +141,22 @@ func fmtTime(t time.Time, frac int) string {
 	return s + "Z"
 }
 
+// truncFrac is the instant fmtTime actually writes for t with frac fractional digits.
+func truncFrac(t time.Time, frac int) time.Time {
+	if frac < 0 {
+		frac = 0
+	}
+	if frac > 9 {
+		frac = 9
+	}
+	unit := int64(1)
+	for i := frac; i < 9; i++ {
+		unit *= 10
+	}
+	ns := int64(t.Nanosecond())
+	return t.Add(-time.Duration(ns % unit))
+}
+
 func indentOf(st *Style) (nl, in string) {
 	switch mod(st.Indent, 3) {
 	case 1:
@@ -404,8 +420,8 @@ type Sent struct {
 	Host        string
 	Header      http.Header
 
-	XML        string // protocol message as it left the sender (after tampering); "" when there is none
-	XMLSigned  string // the document the SP's signer produced (before tampering); "" when unsigned
+	XML        string              // protocol message as it left the sender (after tampering); "" when there is none
+	XMLSigned  string              // the document the SP's signer produced (before tampering); "" when unsigned
 	Params     map[string][]string // decoded parameters as a form parser would see them
 	Relay      string
 	HasRelay   bool
@@ -599,11 +615,40 @@ func BuildRequest(w *World, t *Task, m *MsgSpec) (*http.Request, *Sent, error) {
 	default:
 		return nil, nil, fmt.Errorf("unknown message kind %q", m.Kind)
 	}
-	if m.DelayNs > 0 {
-		time.Sleep(time.Duration(m.DelayNs))
+	delay := m.DelayNs
+	if m.DelayAnchor != "" {
+		// deliver exactly at (instant written in the message) + DelayNs
+		var anchor *time.Time
+		switch m.DelayAnchor {
+		case "notOnOrAfter":
+			anchor = s.NotOnOrAfter
+		case "notBefore":
+			anchor = s.NotBefore
+		case "issueInstant":
+			anchor = s.IssueInstant
+		}
+		delay = 0
+		if anchor != nil {
+			written := truncFrac(*anchor, m.Style.Frac)
+			delay = int64(written.Sub(time.Now())) + m.DelayNs
+			w.probe("delivery_aimed_at_" + m.DelayAnchor)
+		}
+	}
+	if delay > 0 {
+		time.Sleep(time.Duration(delay))
 		w.fire("delay")
 	}
 	s.SendTime = time.Now()
+	// a message delivered outside the window written in it is not a conformant request any more
+	if s.NotBefore != nil && truncFrac(*s.NotBefore, m.Style.Frac).After(s.SendTime) {
+		w.notConformant(s, "delivered before NotBefore")
+	}
+	if s.NotOnOrAfter != nil && !truncFrac(*s.NotOnOrAfter, m.Style.Frac).After(s.SendTime) {
+		w.notConformant(s, "delivered at or after NotOnOrAfter")
+	}
+	if m.Kind == "slo" && s.IssueInstant != nil && truncFrac(*s.IssueInstant, m.Style.Frac).After(s.SendTime) {
+		w.notConformant(s, "issued in the future")
+	}
 	target := s.Path
 	if target == "" || target[0] != '/' {
 		target = "/" + target
@@ -926,6 +971,12 @@ func (w *World) buildAttrQ(t *Task, m *MsgSpec, sp *SPNode, s *Sent) error {
 		w.notConformant(s, "literal subject")
 	}
 	f.Requested = m.Requested
+	for _, tp := range m.Tamper {
+		if tp.Op == "noquery" {
+			f.NoQuery = true
+			w.fire("tamper_noquery")
+		}
+	}
 	f.SoapPrefix = m.Style.SigPrefix
 	f.HeaderBlock = m.Style.Optional&optExtensions != 0
 	open, query, closeS := buildAttributeQueryXML(f, &m.Style)
